@@ -132,10 +132,10 @@ def run_proxy(eng, p):
     acc = p["access"]
     if acc == "int":
         q = eng.int("q")
-        eng.assume((q >= 0) & (q < k))
-        got = feat[q]
-        qq = eng.concretize(q)
-        expect(eng, got, bm[qq], "proxy[int] == origin[map[int]]")
+        eng.assume((q >= -k) & (q < k))        # negative indices count from
+        qq = eng.concretize(q)                 # the end of the MAP
+        got = feat[qq]
+        expect(eng, got, bm[qq % k], "proxy[int] == origin[map[int]]")
     elif acc == "whole":
         got = list(feat[:]) if scalar else list(feat[:])
         eng.prove(z3.BoolVal(len(got) == k), "proxy[:] has len(map) events")
@@ -584,7 +584,7 @@ def replay(case, params, v):
                             x[..., 0, 0] if x.ndim == 3 else x[0, 0])
                     if acc == "int":
                         q = int(vals.get("q", 0))
-                        got, want = norm(feat[q]), exp[q]
+                        got, want = norm(feat[q]), exp[q % k]
                     elif acc == "whole":
                         got, want = norm(feat[:]), exp
                     elif acc == "array":
